@@ -35,12 +35,19 @@ def F(s):
 
 
 def curve_shape(c):
-    """'n:lin' -> 1 ; 'c:…' -> 5 ; undocumented name -> None"""
-    return 5 if c.startswith('c:') else SERVER_SHAPES.get(c[2:])
+    """'n:lin' -> 1 ; 'c:…' / 'ci:…' (float / int curvature) -> 5 ; undocumented name -> None"""
+    return 5 if c.startswith(('c:', 'ci:')) else SERVER_SHAPES.get(c[2:])
 
 
 def curve_value(c):
+    if c.startswith('ci:'):
+        return Fraction(c[3:])
     return Fraction(c[2:]) if c.startswith('c:') else Fraction(0)
+
+
+def f32(x):
+    import struct
+    return Fraction(struct.unpack('>f', struct.pack('>f', float(x)))[0])
 
 
 def wrap_extend(lst, n):
@@ -184,7 +191,10 @@ class Check(common.Check):
             return 'n:' + rng.choice(names)
         if r < 0.66:
             return 'n:' + rng.choice(['foo', 'sqrt', 'linea', ''])
-        v = rng.choice([self.dy(rng, -8, 8), Fraction(0), Fraction(1, 16384), Fraction(-1, 32768), Fraction(-4), Fraction(2)])
+        v = rng.choice([self.dy(rng, -8, 8), Fraction(0), Fraction(1, 16384), Fraction(-1, 32768), Fraction(-4), Fraction(2),
+                        Fraction(rng.randint(-8, 8))])
+        if v.denominator == 1 and rng.random() < 0.5:
+            return f'ci:{v.numerator}'        # the curvature given as a Python int
         return 'c:' + fq(v)
 
     def eval_times(self, rng, e):
@@ -475,6 +485,11 @@ class Check(common.Check):
             if nums != [v for ch in want for v in ch]:
                 return {'what': f'{case["ctor"]}: OSC argument {out.get("osc")} does not carry the encoding {want}',
                         'signature': 'env:control-input'}
+        gr = out.get('graph')
+        if not isinstance(fm, str) and gr is not None:
+            v = self.graph_oracle(case, fm if case.get('mc') else [fm], gr, out.get('ifmt'), bool(case.get('mc')))
+            if v:
+                return v
         if case.get('mc'):
             if isinstance(fm, str):
                 return None
@@ -582,6 +597,51 @@ class Check(common.Check):
             if not (min(a, b) - tol <= v <= max(a, b) + tol):
                 return bad('between', f'_at({ts}) = {float(v)} is outside [{float(min(a, b))}, {float(max(a, b))}] '
                                       f'inside segment {j} (shape {sh})')
+        return None
+
+    def graph_oracle(self, case, chans, gr, out_ifmt, mc):
+        """EnvGen.ar/.kr and IEnvGen.ar/.kr inside a SynthDef: one unit per channel, each carrying that
+        channel's array (read back from the emitted bytes, float32)."""
+        def bad(what):
+            return {'what': f'{case["ctor"]} in a SynthDef: {what}', 'signature': 'env:ugen-inputs'}
+        if isinstance(gr, str):
+            return bad(f'the build raised {gr}')
+        want_env = sorted([[f32(F(x)) for x in ['1', '1', '0', '1', '0'] + ch] for ch in chans])
+        for key in ('EnvGen.ar', 'EnvGen.kr'):
+            got = gr.get(key, [])
+            try:
+                g = sorted([[Fraction(x) for x in u] for u in got])
+            except ValueError:
+                return bad(f'{key} has non-constant inputs {got}')
+            if g != want_env:
+                return bad(f'{len(got)} {key} unit(s) with inputs {got}; expected {len(chans)} unit(s), one per channel, '
+                           f'carrying gate 1, levelScale 1, levelBias 0, timeScale 1, doneAction 0 and the channel\'s '
+                           f'EnvGen array {chans}')
+        ifmt = out_ifmt
+        if isinstance(ifmt, str):
+            return bad(f'_interpolation_format raised {ifmt}')
+        if not mc:      # independent layout: offset, initial level, n, total duration, (duration, shape, curvature, level)*
+            ch = chans[0]
+            n = int(F(ch[1]))
+            segs = [ch[4 + 4 * i: 8 + 4 * i] for i in range(n)]
+            total = 0
+            for sg in segs:
+                total = total + float(F(sg[1]))
+            exp1 = [F(ch[0]), Fraction(n), Fraction(total)] + [F(x) for sg in segs for x in (sg[1], sg[2], sg[3], sg[0])]
+            if len(ifmt) != 1 or [F(x) for x in ifmt[0][1:]] != exp1:
+                return {'what': f'{case["ctor"]}: IEnvGen array {ifmt} is not offset, initial level, segment count, total '
+                                f'duration and (duration, shape, curvature, level) per segment of {ch}',
+                        'signature': 'env:interpolation-format'}
+        exp = sorted([[f32(F(x)) for x in ch] for ch in ifmt])
+        for key in ('IEnvGen.ar', 'IEnvGen.kr'):
+            got = gr.get(key, [])
+            try:
+                g = sorted([[Fraction(x) for x in u[1:]] for u in got])       # after the index input
+            except ValueError:
+                return bad(f'{key} has non-constant envelope inputs {got}')
+            if g != exp:
+                return bad(f'{len(got)} {key} unit(s) with inputs {got}; expected {len(ifmt)} unit(s), one per channel, '
+                           f'carrying the channel\'s IEnvGen array {ifmt}')
         return None
 
     @staticmethod
